@@ -525,7 +525,9 @@ def run(ctx):
         ctx.tie_broken("extract:emitter-keyword", f"compiler/python/__init__.py:{ln}: emitted text fragment {v!r} contains a control-flow keyword")
     ctx.extra["size_sites"] = len(facts.get("sites", []))
     ctx.extra["lower_size_generic"] = ("stb_size_generic proved for _squeeze_transpose_broadcast; lower_size_generic_partial for id on flat expressions (hypothesis: final no-op test); "
-                                       "flattened axes, concatenation, diagonal, reduce, elementwise, dot, get_at/update_at, argfind rest on the stb_model tie, the source obligation and the search")
+                                       "stbU_size_generic (broadcast_to_unitary=True) and expr_to_axis_size_generic (Props/C17Lower.lean) for the pieces of the elementwise / reduce lowering; "
+                                       "the whole elementwise / reduce pipelines rest on the lower_model tie (model = traced graph, equal model skeletons over three assignments); "
+                                       "flattened axes, concatenation, diagonal, dot, get_at/update_at, argfind rest on the stb_model tie, the source obligation and the search")
 
     calls = []
     for c in EXTRA_CALLS:
